@@ -30,7 +30,7 @@ VocabFull ==
         Tok("badfilter", FALSE, ""), Tok("badfilter", TRUE, ""), Tok("match-case", FALSE, ""), Tok("match-case", TRUE, ""),
         Tok("generichide", FALSE, ""), Tok("ghide", FALSE, ""), Tok("generichide", TRUE, ""), Tok("ghide", TRUE, ""),
         Tok("domain", FALSE, "a.com"), Tok("from", FALSE, "a.com"), Tok("domain", FALSE, "~a.com"), Tok("domain", FALSE, "a.com|~s.a.com"),
-        Tok("domain", FALSE, "/re/"), Tok("domain", FALSE, "a.com|/re/"), Tok("domain", TRUE, "a.com"), Tok("from", FALSE, "~s.a.com|a.com"),
+        Tok("domain", FALSE, "/re/"), Tok("domain", FALSE, "a.com|/re/"), Tok("domain", FALSE, "a.com|~a.com"), Tok("domain", FALSE, "~a.com|~s.a.com|s.a.com"), Tok("domain", TRUE, "a.com"), Tok("from", FALSE, "~s.a.com|a.com"),
         Tok("tag", FALSE, "t1"), Tok("tag", TRUE, "t1"),
         Tok("redirect", FALSE, "r1"), Tok("redirect", FALSE, ""), Tok("redirect", TRUE, "r1"),
         Tok("redirect-rule", FALSE, "r2"), Tok("redirect-rule", FALSE, ""), Tok("redirect-rule", TRUE, "r2"),
